@@ -19,6 +19,10 @@ type schedCase struct {
 	Hist []Op `json:"history"`
 	Mem  int  `json:"maxMemory"`
 	Desc bool `json:"descendingTargets,omitempty"` // every block's targets are fed in descending position order
+	// Query: "" = one fresh tracker, asked once at the end. "each" = ONE tracker asked after every recorded block
+	// with the limit Mem (every answer is checked against the history recorded so far). "alt" = one tracker asked
+	// after every block first with a non-binding limit (leaves so far + 1), then with Mem (both checked).
+	Query string `json:"query,omitempty"`
 }
 
 // schedTrigger classifies, from the model only, whether the history contains the situations in
@@ -51,23 +55,27 @@ func schedTrigger(hist []Op) string {
 
 func evalSched(sc schedCase) (viol []Violation, evals int64) {
 	rep := func(sig, detail string) {
-		viol = append(viol, Violation{Prop: "C15", Sig: sig + schedTrigger(sc.Hist), Detail: detail, Case: mkCase("sched", sc), CaseID: fmt.Sprintf("%s m=%d%s", histStr(sc.Hist), sc.Mem, map[bool]string{true: " desc"}[sc.Desc])})
+		id := fmt.Sprintf("%s m=%d%s", histStr(sc.Hist), sc.Mem, map[bool]string{true: " desc"}[sc.Desc])
+		if sc.Query != "" {
+			id += " query=" + sc.Query
+			sig += " (tracker asked more than once)"
+		}
+		viol = append(viol, Violation{Prop: "C15", Sig: sig + schedTrigger(sc.Hist), Detail: detail, Case: mkCase("sched", sc), CaseID: id})
 	}
-	created := map[int]int{}
-	deleted := map[int]int{}
-	total := 0
 	s := ref.State{}
 	cs := u.NewCachingScheduleTracker(len(sc.Hist))
+	ask := func(upto, mem int) bool {
+		var sch [][]uint64
+		evals++
+		if err := safe(func() error { sch = cs.GenerateCachingSchedule(mem); return nil }); err != nil {
+			rep("GenerateCachingSchedule panics", fmt.Sprintf("maxMemory %d after %d blocks: %v", mem, upto, err))
+			return false
+		}
+		return checkSchedule(rep, sc.Hist[:upto], sch, mem)
+	}
 	for b, op := range sc.Hist {
 		L := ref.APILayout(s)
 		pr := L.Proof(op.Dels)
-		for i := 0; i < op.Adds; i++ {
-			created[s.N()+i] = b
-		}
-		for _, d := range op.Dels {
-			deleted[d] = b
-		}
-		total += op.Adds
 		tg := append([]uint64(nil), pr.Targets...)
 		if sc.Desc {
 			sort.Slice(tg, func(i, j int) bool { return tg[i] > tg[j] })
@@ -77,16 +85,49 @@ func evalSched(sc schedCase) (viol []Violation, evals int64) {
 			return
 		}
 		s = s.Apply(op.Dels, op.Adds)
+		if b == len(sc.Hist)-1 {
+			break
+		}
+		switch sc.Query {
+		case "each":
+			if !ask(b+1, sc.Mem) {
+				return
+			}
+		case "alt":
+			if !ask(b+1, s.N()+1) || !ask(b+1, sc.Mem) {
+				return
+			}
+		}
 	}
-	var sch [][]uint64
-	evals++
-	if err := safe(func() error { sch = cs.GenerateCachingSchedule(sc.Mem); return nil }); err != nil {
-		rep("GenerateCachingSchedule panics", fmt.Sprintf("maxMemory %d: %v", sc.Mem, err))
+	if sc.Query == "alt" && !ask(len(sc.Hist), s.N()+1) {
 		return
 	}
-	if len(sch) != len(sc.Hist) {
-		rep("schedule does not have one entry per recorded block", fmt.Sprintf("%d entries for %d blocks", len(sch), len(sc.Hist)))
-		return
+	ask(len(sc.Hist), sc.Mem)
+	return
+}
+
+// checkSchedule is the C15 oracle for one answer: sch against the birth/death table of hist.
+func checkSchedule(rep func(sig, detail string), hist []Op, sch [][]uint64, mem int) bool {
+	created := map[int]int{}
+	deleted := map[int]int{}
+	total := 0
+	n := 0
+	for b, op := range hist {
+		for i := 0; i < op.Adds; i++ {
+			created[n+i] = b
+		}
+		for _, d := range op.Dels {
+			deleted[d] = b
+		}
+		total += op.Adds
+		n += op.Adds
+	}
+	good := true
+	rep0 := rep
+	rep = func(sig, detail string) { good = false; rep0(sig, detail) }
+	if len(sch) != len(hist) {
+		rep("schedule does not have one entry per recorded block", fmt.Sprintf("%d entries for %d blocks", len(sch), len(hist)))
+		return false
 	}
 	scheduled := map[int]bool{}
 	for b, ps := range sch {
@@ -103,28 +144,28 @@ func evalSched(sc schedCase) (viol []Violation, evals int64) {
 			_, del := deleted[slot]
 			switch {
 			case !ok || cb != b || uint64(slot) != p:
-				rep("a scheduled position is not the insertion slot of a leaf added in that block", fmt.Sprintf("maxMemory %d block %d position %d schedule %v", sc.Mem, b, p, sch))
+				rep("a scheduled position is not the insertion slot of a leaf added in that block", fmt.Sprintf("maxMemory %d block %d position %d schedule %v", mem, b, p, sch))
 			case !del:
-				rep("a scheduled leaf is never deleted in a later recorded block", fmt.Sprintf("maxMemory %d block %d position %d schedule %v", sc.Mem, b, p, sch))
+				rep("a scheduled leaf is never deleted in a later recorded block", fmt.Sprintf("maxMemory %d block %d position %d schedule %v", mem, b, p, sch))
 			case deleted[slot] <= b:
-				rep("a scheduled leaf is not deleted in a later block", fmt.Sprintf("maxMemory %d block %d position %d", sc.Mem, b, p))
+				rep("a scheduled leaf is not deleted in a later block", fmt.Sprintf("maxMemory %d block %d position %d", mem, b, p))
 			default:
 				scheduled[slot] = true
 			}
 		}
 	}
-	for b := range sc.Hist {
+	for b := range hist {
 		cnt := 0
 		for slot := range scheduled {
 			if created[slot] <= b && deleted[slot] > b {
 				cnt++
 			}
 		}
-		if cnt > sc.Mem {
-			rep("more scheduled leaves exist simultaneously than the memory limit", fmt.Sprintf("maxMemory %d: %d scheduled leaves alive across block %d", sc.Mem, cnt, b))
+		if cnt > mem {
+			rep("more scheduled leaves exist simultaneously than the memory limit", fmt.Sprintf("maxMemory %d: %d scheduled leaves alive across block %d", mem, cnt, b))
 		}
 	}
-	if sc.Mem >= total {
+	if mem >= total {
 		var missing []int
 		for slot := range deleted {
 			if !scheduled[slot] {
@@ -133,10 +174,10 @@ func evalSched(sc schedCase) (viol []Violation, evals int64) {
 		}
 		sort.Ints(missing)
 		if len(missing) > 0 {
-			rep("the schedule misses added-then-deleted leaves although the limit is at least the number of leaves ever alive", fmt.Sprintf("maxMemory %d: missing slots %v schedule %v", sc.Mem, missing, sch))
+			rep("the schedule misses added-then-deleted leaves although the limit is at least the number of leaves ever alive", fmt.Sprintf("maxMemory %d after %d blocks: missing slots %v schedule %v", mem, len(hist), missing, sch))
 		}
 	}
-	return
+	return good
 }
 
 func init() {
@@ -309,7 +350,7 @@ func containsInt(a []int, x int) bool {
 
 func schedPass(c *Ctx, nmax, depth int, tag string) {
 	{
-		c.Cov.Rule = "every block history (no de-duplication) with at most Nmax leaves ever added and at most D blocks (every deletion subset of the live leaves x every addition count, non-empty blocks); the summaries fed to AddBlockSummary are the reference proof targets in request order (and, for the limits 1, 2, total and total+1, the same targets in descending position order) and the addition counts; GenerateCachingSchedule is evaluated for every memory limit from 1 to (leaves ever added)+1 on a fresh tracker; oracle from the model's birth/death table: every scheduled position of block b is the insertion slot of a leaf added in b and deleted in a later block, ascending without repeats, at most m scheduled leaves alive across any block, complete when m >= leaves ever added, no panic; states = histories, transitions = (history, limit) evaluations, a second, wider and shallower pass (more leaves, depth 3) reaches deletions of whole aligned subtrees of four; a third, structured pass uses 12 and 16 (thorough: up to 32) leaves with unions of aligned blocks deleted over up to four blocks and the memory limits 1, 2, 3, half, total-1, total, total+1; non-trivial = histories with a deletion"
+		c.Cov.Rule = "every block history (no de-duplication) with at most Nmax leaves ever added and at most D blocks (every deletion subset of the live leaves x every addition count, non-empty blocks); the summaries fed to AddBlockSummary are the reference proof targets in request order (and, for the limits 1, 2, total and total+1, the same targets in descending position order) and the addition counts; GenerateCachingSchedule is evaluated for every memory limit from 1 to (leaves ever added)+1 on a fresh tracker, and for the limits 1, 2, total-1, total, total+1 also on ONE tracker that is asked after every recorded block (with the same limit each time / alternating with a non-binding limit), every answer checked against the summaries recorded up to then; oracle from the model's birth/death table: every scheduled position of block b is the insertion slot of a leaf added in b and deleted in a later block, ascending without repeats, at most m scheduled leaves alive across any block, complete when m >= leaves ever added, no panic; states = histories, transitions = (history, limit) evaluations, a second, wider and shallower pass (more leaves, depth 3) reaches deletions of whole aligned subtrees of four; a third, structured pass uses 12 and 16 (thorough: up to 32) leaves with unions of aligned blocks deleted over up to four blocks and the memory limits 1, 2, 3, half, total-1, total, total+1; non-trivial = histories with a deletion"
 		c.Cov.Bound[tag+"Nmax"] = nmax
 		c.Cov.Bound[tag+"depth"] = depth
 		// first-level subtrees as parallel tasks: enumerate all histories of depth<=2 as seeds
@@ -372,6 +413,15 @@ func schedPass(c *Ctx, nmax, depth int, tag string) {
 						vs, ev := evalSched(schedCase{Hist: hist, Mem: m})
 						atomic.AddInt64(&evalsN, ev)
 						c.Col.Add(vs...)
+						if len(hist) >= 2 && (m <= 2 || m >= total-1) {
+							// ONE tracker asked after every block (a schedule is a function of the summaries recorded
+							// so far, whatever was asked before)
+							for _, q := range []string{"each", "alt"} {
+								vs, ev := evalSched(schedCase{Hist: hist, Mem: m, Query: q})
+								atomic.AddInt64(&evalsN, ev)
+								c.Col.Add(vs...)
+							}
+						}
 						if multi && (m <= 2 || m >= total) {
 							// the same summaries with every target list in descending order
 							vs, ev := evalSched(schedCase{Hist: hist, Mem: m, Desc: true})
